@@ -18,6 +18,10 @@ import (
 	"fmt"
 	"hash/adler32"
 	"io"
+	"net"
+	"runtime"
+	"runtime/debug"
+	"strings"
 	"sync"
 	"time"
 
@@ -497,6 +501,164 @@ type c11EndNoClose struct{ rw io.ReadWriter }
 func (e c11EndNoClose) Read(p []byte) (int, error)  { return e.rw.Read(p) }
 func (e c11EndNoClose) Write(p []byte) (int, error) { return e.rw.Write(p) }
 
+// c11NetPair: mode 2 = TCP over loopback, mode 3 = net.Pipe.
+func c11NetPair(mode int) (net.Conn, net.Conn, error) {
+	if mode == 3 {
+		a, b := net.Pipe()
+		return a, b, nil
+	}
+	ln, err := net.Listen("tcp", "127.0.0.1:0")
+	if err != nil {
+		return nil, nil, err
+	}
+	defer ln.Close()
+	type acc struct {
+		c   net.Conn
+		err error
+	}
+	ch := make(chan acc, 1)
+	go func() { c, err := ln.Accept(); ch <- acc{c, err} }()
+	a, err := net.Dial("tcp", ln.Addr().String())
+	if err != nil {
+		return nil, nil, err
+	}
+	b := <-ch
+	if b.err != nil {
+		a.Close()
+		return nil, nil, b.err
+	}
+	return a, b.c, nil
+}
+
+// ---- dialogue: the way every caller in the repository uses a Conn — ONE goroutine per
+// endpoint that alternates between sending a round (ending in Flush) and receiving the peer's
+// round, with ONE ot.LabelData scratch buffer for its sends and its receives; over p2p.Pipe().
+
+func c11MergeSend(dst *c11SendRes, r c11SendRes, opsBefore int) {
+	dst.trace = append(dst.trace, r.trace...)
+	dst.ptrs = append(dst.ptrs, r.ptrs...)
+	if dst.err == nil && r.err != nil {
+		dst.err, dst.errAt = r.err, opsBefore+r.errAt
+	}
+	if dst.statAt < 0 && r.statAt >= 0 {
+		dst.statAt, dst.statSent, dst.statPos, dst.statWant = opsBefore+r.statAt, r.statSent, r.statPos, r.statWant
+	}
+	if dst.argErr == "" {
+		dst.argErr = r.argErr
+	}
+	dst.sent, dst.produced = r.sent, r.produced
+}
+
+func c11MergeRecv(dst *c11RecvRes, r c11RecvRes, before int) {
+	dst.trace = append(dst.trace, r.trace...)
+	dst.vals = append(dst.vals, r.vals...)
+	if dst.err == nil && r.err != nil {
+		dst.err, dst.errAt = r.err, before+r.errAt
+	}
+}
+
+// c11DialogueScripts: rounds of a few small ops each, every round ending in Flush.
+func c11DialogueScripts(r *RNG, c *Ctx) (ab, ba *c11Script, roundsAB, roundsBA [][]c11Op) {
+	n := 2 + r.Intn(8)
+	mk := func() (*c11Script, [][]c11Op) {
+		s := &c11Script{class: "dialogue", rclass: "match", fclass: "pipe-chunks"}
+		var rounds [][]c11Op
+		for i := 0; i < n; i++ {
+			var ops []c11Op
+			for j := 1 + r.Intn(6); j > 0; j-- {
+				o := c11RandOp(r, c, false)
+				if o.kind == c11KLabel {
+					o.fresh = false // the one scratch buffer of the endpoint
+				}
+				ops = append(ops, o)
+				if r.Intn(10) == 0 {
+					ops = append(ops, c11Op{kind: c11KFlush})
+				}
+			}
+			ops = append(ops, c11Op{kind: c11KFlush})
+			rounds = append(rounds, ops)
+			s.ops = append(s.ops, ops...)
+		}
+		for _, o := range s.ops {
+			if o.isValue() {
+				s.recv = append(s.recv, o.recvCode())
+			}
+		}
+		return s, rounds
+	}
+	ab, roundsAB = mk()
+	ba, roundsBA = mk()
+	return
+}
+
+func c11RecvCodes(ops []c11Op) []int {
+	var k []int
+	for _, o := range ops {
+		if o.isValue() {
+			k = append(k, o.recvCode())
+		}
+	}
+	return k
+}
+
+func c11RunDialogue(ab, ba *c11Dir, roundsAB, roundsBA [][]c11Op) bool {
+	A, B := p2p.Pipe()
+	ab.send, ba.send = c11SendRes{errAt: -1, closeLen: -1, statAt: -1}, c11SendRes{errAt: -1, closeLen: -1, statAt: -1}
+	ab.recv, ba.recv = c11RecvRes{errAt: -1, statAt: -1}, c11RecvRes{errAt: -1, statAt: -1}
+	var wg sync.WaitGroup
+	wg.Add(2)
+	go func() { // endpoint A: send round, then receive the peer's round
+		defer wg.Done()
+		var ld ot.LabelData
+		ops, vals := 0, 0
+		for i := range roundsAB {
+			c11MergeSend(&ab.send, c11SendFrom(A, roundsAB[i], nil, &ld, ab.send.produced, true), ops)
+			ops += len(roundsAB[i])
+			codes := c11RecvCodes(roundsBA[i])
+			c11MergeRecv(&ba.recv, c11RecvWith(A, codes, nil, false, &ld), vals)
+			vals += len(codes)
+			if ab.send.err != nil || ba.recv.err != nil {
+				return
+			}
+		}
+	}()
+	go func() { // endpoint B: receive the peer's round, then send its own
+		defer wg.Done()
+		var ld ot.LabelData
+		ops, vals := 0, 0
+		for i := range roundsBA {
+			codes := c11RecvCodes(roundsAB[i])
+			c11MergeRecv(&ab.recv, c11RecvWith(B, codes, nil, false, &ld), vals)
+			vals += len(codes)
+			c11MergeSend(&ba.send, c11SendFrom(B, roundsBA[i], nil, &ld, ba.send.produced, true), ops)
+			ops += len(roundsBA[i])
+			if ba.send.err != nil || ab.recv.err != nil {
+				return
+			}
+		}
+	}()
+	done := make(chan struct{})
+	go func() { wg.Wait(); close(done) }()
+	select {
+	case <-done:
+	case <-time.After(60 * time.Second):
+		return false
+	}
+	// both close; the Close is the last op of each script
+	for _, x := range []struct {
+		d    *c11Dir
+		conn *p2p.Conn
+	}{{ab, A}, {ba, B}} {
+		if x.d.send.err == nil {
+			c11MergeSend(&x.d.send, c11SendFrom(x.conn, []c11Op{{kind: c11KClose}}, nil, new(ot.LabelData), x.d.send.produced, false), len(x.d.script.ops))
+			x.d.script.ops = append(x.d.script.ops, c11Op{kind: c11KClose})
+		}
+	}
+	ab.recvd = B.Stats.Recvd.Load()
+	ba.recvd = A.Stats.Recvd.Load()
+	return true
+}
+
 type c11SendRes struct {
 	// first op after which Stats.Sent + WritePos differs from the bytes of all values sent so far
 	statAt   int
@@ -508,14 +670,23 @@ type c11SendRes struct {
 	err      error
 	errAt    int
 	sent     uint64
-	closeLen int // bytes on the wire when Close returned (-1: no Close / mode 1)
-	produced int // bytes of all values sent
+	closeLen int    // bytes on the wire when Close returned (-1: no Close / mode 1)
+	produced int    // bytes of all values sent
+	argErr   string // a Send* call modified the slice it was given
 }
 
 func c11Send(conn *p2p.Conn, ops []c11Op, wire *c11Wire) c11SendRes {
-	res := c11SendRes{errAt: -1, closeLen: -1, statAt: -1}
-	produced := 0
 	var ld ot.LabelData
+	return c11SendFrom(conn, ops, wire, &ld, 0, false)
+}
+
+// c11SendFrom runs ops on conn.  ld is the ot.LabelData scratch buffer the caller shares
+// across its labels (and, in dialogue mode, with its receives); base is the number of
+// bytes earlier calls on the same Conn produced; more: further ops will follow (the
+// transport's end of stream is not announced).
+func c11SendFrom(conn *p2p.Conn, ops []c11Op, wire *c11Wire, ldp *ot.LabelData, base int, more bool) c11SendRes {
+	res := c11SendRes{errAt: -1, closeLen: -1, statAt: -1}
+	produced := base
 	for i, o := range ops {
 		var err error
 		switch o.kind {
@@ -529,7 +700,16 @@ func c11Send(conn *p2p.Conn, ops []c11Op, wire *c11Wire) c11SendRes {
 			if len(o.data) == 0 && i%2 == 1 {
 				err = conn.SendData(nil)
 			} else {
-				err = conn.SendData(o.data)
+				// the caller owns its slice: the call must not modify it and must be done with
+				// it when it returns (the caller re-uses the buffer at once)
+				arg := append([]byte{}, o.data...)
+				err = conn.SendData(arg)
+				if res.argErr == "" && !bytes.Equal(arg, o.data) {
+					res.argErr = fmt.Sprintf("op %d: SendData modified the caller's slice (first difference at %d)", i, c11FirstDiff(arg, o.data))
+				}
+				for j := range arg {
+					arg[j] ^= 0xa5
+				}
 			}
 		case c11KString:
 			err = conn.SendString(string(o.data))
@@ -539,10 +719,27 @@ func c11Send(conn *p2p.Conn, ops []c11Op, wire *c11Wire) c11SendRes {
 				var f ot.LabelData
 				err = conn.SendLabel(o.label, &f)
 			} else {
-				err = conn.SendLabel(o.label, &ld)
+				err = conn.SendLabel(o.label, ldp)
+				if i%3 == 2 {
+					// the caller re-uses its scratch buffer for something else after the call
+					for j := range ldp {
+						ldp[j] = 0xee
+					}
+				}
 			}
 		case c11KSizes:
-			err = conn.SendInputSizes(o.sizes)
+			if len(o.sizes) == 0 && i%2 == 1 {
+				err = conn.SendInputSizes(nil)
+			} else {
+				arg := append([]int{}, o.sizes...)
+				err = conn.SendInputSizes(arg)
+				for j := range arg {
+					if res.argErr == "" && arg[j] != o.sizes[j] {
+						res.argErr = fmt.Sprintf("op %d: SendInputSizes modified the caller's slice: element %d was %d, is %d", i, j, o.sizes[j], arg[j])
+					}
+					arg[j] = -1
+				}
+			}
 		case c11KFlush:
 			err = conn.Flush()
 		case c11KRaw:
@@ -578,7 +775,7 @@ func c11Send(conn *p2p.Conn, ops []c11Op, wire *c11Wire) c11SendRes {
 		}
 	}
 	res.sent = conn.Stats.Sent.Load()
-	if wire != nil {
+	if wire != nil && !more {
 		// every script ends with Flush or Close: all produced bytes are what the wire will carry
 		wire.setTotal(produced)
 	}
@@ -598,6 +795,14 @@ type c11RecvRes struct {
 }
 
 func c11Recv(conn *p2p.Conn, kinds []int, wire *c11Wire, sparse bool) c11RecvRes {
+	var ld ot.LabelData
+	return c11RecvWith(conn, kinds, wire, sparse, &ld)
+}
+
+// c11RecvWith: ldp is the caller's ot.LabelData scratch buffer (in dialogue mode the one it
+// also sends with).  Returned slices belong to the caller: it may modify them at once, and
+// they must stay as they were while later receives run (they are compared at the end).
+func c11RecvWith(conn *p2p.Conn, kinds []int, wire *c11Wire, sparse bool, ldp *ot.LabelData) c11RecvRes {
 	res := c11RecvRes{errAt: -1, statAt: -1}
 	checkStats := func(i int) {
 		if wire == nil || res.statAt >= 0 {
@@ -610,7 +815,6 @@ func c11Recv(conn *p2p.Conn, kinds []int, wire *c11Wire, sparse bool) c11RecvRes
 			res.statAt, res.statRecvd, res.statMoved = i, got, moved
 		}
 	}
-	var ld ot.LabelData
 	for i, k := range kinds {
 		v := c11Val{kind: k}
 		var err error
@@ -640,15 +844,35 @@ func c11Recv(conn *p2p.Conn, kinds []int, wire *c11Wire, sparse bool) c11RecvRes
 			x, err = conn.ReceiveUint32()
 			v.n = uint64(x)
 		case c11KData:
-			v.data, err = conn.ReceiveData()
+			var got []byte
+			got, err = conn.ReceiveData()
+			if i%2 == 0 {
+				// the caller owns the result: it keeps a copy and overwrites the slice it got
+				v.data = append([]byte{}, got...)
+				for j := range got {
+					got[j] ^= 0x5a
+				}
+			} else {
+				// ... or keeps the slice itself while it goes on receiving (compared at the end)
+				v.data = got
+			}
 		case c11KString:
 			var s string
 			s, err = conn.ReceiveString()
 			v.data = []byte(s)
 		case c11KLabel:
-			err = conn.ReceiveLabel(&v.label, &ld)
+			err = conn.ReceiveLabel(&v.label, ldp)
 		case c11KSizes:
-			v.sizes, err = conn.ReceiveInputSizes()
+			var got []int
+			got, err = conn.ReceiveInputSizes()
+			if i%2 == 0 {
+				v.sizes = append([]int{}, got...)
+				for j := range got {
+					got[j] = -7
+				}
+			} else {
+				v.sizes = got
+			}
 		}
 		if err != nil {
 			st := 2
@@ -920,6 +1144,12 @@ func c11GenOps(r *RNG, c *Ctx, class string, flushP int) []c11Op {
 				add(c11RawOp(r, c, true))
 			}
 		}
+	case "long":
+		// a long-lived connection: hundreds of values, the ring goes round many times
+		n := 200 + r.Intn(200)
+		for i := 0; i < n; i++ {
+			add(c11RandOp(r, c, false))
+		}
 	case "mixed":
 		n := 2 + r.Intn(14)
 		for i := 0; i < n; i++ {
@@ -1089,7 +1319,7 @@ func c11GenScript(r *RNG, c *Ctx, mode int, class string) *c11Script {
 	s := &c11Script{class: class}
 	s.ops = c11GenOps(r, c, class, flushP)
 	closes := r.Intn(10) < 7
-	if mode == 1 {
+	if mode >= 1 {
 		closes = false
 	}
 	if closes {
@@ -1260,8 +1490,15 @@ func c11RunSession(mode int, ab, ba *c11Dir) (ok bool, closeErrs []error) {
 		}
 		A = p2p.NewConn(ea)
 		B = p2p.NewConn(eb)
-	} else {
+	} else if mode == 1 {
 		A, B = p2p.Pipe()
+	} else {
+		// the transports of the front ends: a TCP connection (apps/garbled, gmw) or net.Pipe
+		ca, cb, err := c11NetPair(mode)
+		if err != nil {
+			return false, []error{err}
+		}
+		A, B = p2p.NewConn(ca), p2p.NewConn(cb)
 	}
 	var wg sync.WaitGroup
 	wg.Add(4)
@@ -1276,7 +1513,7 @@ func c11RunSession(mode int, ab, ba *c11Dir) (ok bool, closeErrs []error) {
 	case <-time.After(120 * time.Second):
 		return false, nil
 	}
-	if mode == 1 {
+	if mode >= 1 {
 		// epilogue over the pipe: A sends a tail without flushing and closes; B receives
 		// the tail and then must see EOF.  Then B closes.
 		tail := []c11Op{{kind: c11KU32, v: 0xC0FFEE}, {kind: c11KData, data: []byte("tail-of-stream")}, {kind: c11KByte, b: 0x5a}, {kind: c11KClose}}
@@ -1401,6 +1638,9 @@ func c11Judge(c *Ctx, sess int, mode int, name string, d *c11Dir) {
 		sfx = ":payload>readBufSize"
 	} else if maxPayload == c11ReadBuf {
 		sfx = ":payload=readBufSize"
+	}
+	if d.send.argErr != "" {
+		fail("c11:arg:send-modified-callers-slice", d.send.argErr)
 	}
 	if d.apiErr != "" {
 		fail("c11:stats:Sum-or-Add", d.apiErr)
@@ -1646,12 +1886,40 @@ func runC11(c *Ctx) error {
 		}
 	}
 	plans = append(plans, plan{0, "atsize", len(ats)})
+	// doors: the one-goroutine-per-endpoint dialogue of the real callers; the front ends'
+	// transports (TCP loopback, net.Pipe: oracle only, the fragmentation is the kernel's);
+	// a single processor; a collection at nearly every allocation; long-lived connections
+	plans = append(plans, plan{1, "dialogue", c.N(20, 600)}, plan{2, "small", c.N(6, 100)}, plan{2, "mixed", c.N(1, 20)},
+		plan{3, "small", c.N(4, 60)}, plan{0, "small@procs1", c.N(10, 200)}, plan{1, "small@procs1", c.N(4, 100)},
+		plan{0, "small@gogc1", c.N(6, 200)}, plan{1, "small@gogc1", c.N(3, 100)}, plan{0, "long", c.N(1, 40)})
 	sess := 0
 	for _, p := range plans {
+		// run-time environment doors
+		restore := func() {}
+		if k := strings.Index(p.class, "@"); k >= 0 {
+			switch p.class[k+1:] {
+			case "procs1":
+				old := runtime.GOMAXPROCS(1)
+				restore = func() { runtime.GOMAXPROCS(old) }
+			case "gogc1":
+				old := debug.SetGCPercent(1)
+				restore = func() { debug.SetGCPercent(old) }
+			}
+			c.Hist("env:" + p.class[k+1:])
+			p.class = p.class[:k]
+		}
 		for i := 0; i < p.n; i++ {
 			r := c.rng.Fork()
 			var ab, ba *c11Dir
-			if p.class == "atsize" {
+			if p.class == "dialogue" {
+				sa, sb, ra, rb := c11DialogueScripts(r, c)
+				ab, ba = &c11Dir{script: sa}, &c11Dir{script: sb}
+				if !c11RunDialogue(ab, ba, ra, rb) {
+					c.Fail("c11:hang", "dialogue session did not finish within the watchdog time",
+						c11Replay{Seed: c.Seed, Session: sess, Mode: 1, Script: c11Clip(sa.text(), 1500) + " || " + c11Clip(sb.text(), 1500)})
+					return fmt.Errorf("dialogue session %d hung", sess)
+				}
+			} else if p.class == "atsize" {
 				a := ats[i]
 				p.mode = a.mode
 				ab = &c11Dir{script: c11AtSizeScript(r, c, a.mode, a.size, a.kind, a.frag)}
@@ -1665,7 +1933,17 @@ func runC11(c *Ctx) error {
 				}
 				ba = &c11Dir{script: c11GenScript(r, c, p.mode, cls2)}
 			}
-			ok, _ := c11RunSession(p.mode, ab, ba)
+			ok := true
+			if p.class != "dialogue" {
+				var errs []error
+				ok, errs = c11RunSession(p.mode, ab, ba)
+				if !ok && len(errs) > 0 {
+					// no loopback networking in this sandbox: the door stays closed, say so
+					c.Note("transport mode %d unavailable: %v", p.mode, errs[0])
+					c.Hist(fmt.Sprintf("mode:%d:unavailable", p.mode))
+					continue
+				}
+			}
 			if !ok {
 				c.Fail("c11:hang", "session did not finish within the watchdog time",
 					c11Replay{Seed: c.Seed, Session: sess, Mode: p.mode, Script: c11Clip(ab.script.text(), 1500) + " || " + c11Clip(ba.script.text(), 1500)})
@@ -1693,7 +1971,7 @@ func runC11(c *Ctx) error {
 					}
 				}
 				c.Eval(fmt.Sprintf("%d|%s", p.mode, s.text()), nvals >= 2 && len(d.recv.vals) >= 1)
-				asCase := p.class != "atsize" || di == 1 || c.Thorough() || ats[i].model
+				asCase := p.mode <= 1 && (p.class != "atsize" || di == 1 || c.Thorough() || ats[i].model)
 				if !asCase {
 					c.Hist("atsize:oracle-only")
 				}
@@ -1719,6 +1997,7 @@ func runC11(c *Ctx) error {
 			}
 			sess++
 		}
+		restore()
 	}
 	return nil
 }
